@@ -353,6 +353,9 @@ def r17_5(ctx):
     # should_close: true only for Timer::Close behind timestamp >= expires_at ; dispatch: reset behind should_close
     sc = ctx.method('socket::tcp::Timer', 'should_close')
     ge = rel_edges(F, sc, 'gt', ['A:2'], [f"F:{T}.expires_at"], either_order=True)
+    if not ge:
+        ge = [(bi, f) for bi, f in returned_comparisons(F, sc)
+              if rel_matches(f, 'gt', ['A:2'], [f"F:{T}.expires_at"], True)]
     ctx.need(ge, "comparison timestamp >= expires_at in Timer::should_close")
     ctx.ok(('should_close', 'cmp'))
     d = ctx.method(SOCK, 'dispatch')
